@@ -208,6 +208,31 @@ PROPS["C20"] = {
     ],
 }
 
+PROPS["C16"] = {
+    "level": "exploration",
+    "rule": "two parts, both on the virtual clock. in-memory cron.Cron: sequences (2-16 ops) of Add (ids j1..j4; '+d', '!t', 7-field "
+            "recurring expressions; re-adding an id replaces it; job functions take a generated virtual duration), Rem, Suspend, Resume, "
+            "Pause and sleeps, started at a fixed phase; oracle: no fire before the due time / next occurrence, one-shot at most once and "
+            "exactly once within 1 s of unsuspended time after due, recurring instantaneous jobs once per occurrence, no fire for an "
+            "occurrence after removal/replacement, timeline sorted with one entry per id after every op. crolt (package main, checked "
+            "in-package through a build overlay): Add/Delete/DeleteAccount/work pass/sleep/reopen sequences over 3 accounts x 3 ids "
+            "with duration and recurring schedules, MaxJitter 0, TTL 2 s; a firing is a job's time-index id changing during a work "
+            "pass; oracle: fired/evicted only at or after the time in its index key, one-shot exactly once then evicted after the "
+            "TTL, deleted jobs never fire, job table == live jobs, job table and time index agree key for key after every operation "
+            "and every reopen. Non-trivial = a removal of a not-yet-due job with other jobs pending, a replacement, or a reopen with "
+            ">= 2 pending jobs. Distinct = distinct canonical JSON.",
+    "assumptions": COMMON_ASSUMPTIONS + [
+        "virtual time (Go faketime); crolt's HTTP request is made to fail immediately (empty URL) so no network I/O is in flight",
+        "the harness, not WorkLoops, calls the firing pass of crolt; crolt's absolute-time schedules are not exercised (its parser rejects them)",
+    ],
+    "parts": [
+        {"name": "memcron", "mode": "faketime", "test": "TestC16Cron",
+         "quick": {"checks": 800, "shards": 4}, "thorough": {"checks": 15000, "shards": 16}},
+        {"name": "crolt", "mode": "crolt", "test": "TestC16Crolt",
+         "quick": {"checks": 500, "shards": 4}, "thorough": {"checks": 6000, "shards": 16}},
+    ],
+}
+
 # Properties deliberately not claimed (reason shown in MANIFEST.not_applicable).
 NOT_APPLICABLE = {}
 
@@ -258,6 +283,11 @@ TEXT = {
         "technique": _PBT + "generated add/remove histories around the capacity boundary; generated arrival patterns on a virtual clock vs closed-form sliding-window and recovery oracles",
         "level_text": "Generated exploration of capacity histories and of breaker/throttle arrival patterns (exact instants on a virtual clock). Not a proof.",
         "level_note": "Trusted: Go faketime mode, the closed-form window oracle; bursts are concurrent goroutines at one virtual instant.",
+    },
+    "C16": {
+        "technique": _PBT + "generated job-operation sequences on a virtual clock vs closed-form due-time/occurrence oracles and a table/index consistency invariant (in-package via overlay for crolt)",
+        "level_text": "Generated exploration of both cron services with exact virtual instants; every fire is attributed to a job generation. Not a proof.",
+        "level_note": "Trusted: Go faketime mode; the overlay that compiles the check into package main of /repo/crolt; firing observed through the job's index id.",
     },
     "C05": {
         "technique": _PBT + "generated (pattern, data, bindings) vs independent brute-force matcher; substitution round-trip; metamorphic typed variants",
